@@ -4,10 +4,15 @@
 // same subscriber).  The client is started (watchers + caches); after every operation the harness
 // waits until every store write has been delivered to the client's caches, so the asynchronous watch
 // callbacks of the in-memory store never overtake each other.
+//
+//	fault put on|off   => ok    the store refuses (on) / accepts (off) every write under /subscriber/
+//	audit <n>          => s1=<cache>|<store>,…   for s1..sn: the address in the client's cache (GetSubscriber) and in the
+//	                            store's record (read through the typed store): <hex> | - (record without address) | x (no record)
 package main
 
 import (
 	"context"
+	"errors"
 	"fmt"
 	"math/rand"
 	"net"
@@ -48,7 +53,11 @@ func randOp(r *rand.Rand, subs int) string {
 		return fmt.Sprintf("release s%d", s)
 	case x < 62:
 		return fmt.Sprintf("lookup s%d", s)
-	case x < 80: // a pool record is created or edited
+	case x < 66:
+		return []string{"fault put on", "fault put off", "fault put off"}[r.Intn(3)]
+	case x < 70:
+		return fmt.Sprintf("audit %d", subs)
+	case x < 82: // a pool record is created or edited
 		p := 1 + r.Intn(3)
 		c := hx.Pick(r, poolAlts[p])
 		return fmt.Sprintf("pool p%d %x %d", p, c.base, c.ones)
@@ -99,9 +108,40 @@ func (comp) Gen(r *rand.Rand, tier string, emit func([]string)) {
 		for j, m := 0, 5+r.Intn(40); j < m; j++ {
 			seq = append(seq, randOp(r, subs))
 		}
+		seq = append(seq, fmt.Sprintf("audit %d", subs), "fault put off")
 		for s := 1; s <= subs; s++ {
 			seq = append(seq, fmt.Sprintf("alloc s%d", s), fmt.Sprintf("lookup s%d", s))
 		}
+		seq = append(seq, fmt.Sprintf("audit %d", subs))
+		emit(seq)
+	}
+	// refused writes around every allocation and release: the cache must follow the store
+	for i := 0; i < n/2; i++ {
+		subs := 2 + r.Intn(3)
+		seq := []string{"new"}
+		c := poolAlts[1][r.Intn(2)]
+		seq = append(seq, fmt.Sprintf("pool p1 %x %d", c.base, c.ones))
+		for s := 1; s <= subs; s++ {
+			seq = append(seq, fmt.Sprintf("sub s%d p1 -", s))
+		}
+		for j, m := 0, 4+r.Intn(16); j < m; j++ {
+			s := 1 + r.Intn(subs)
+			switch r.Intn(8) {
+			case 0, 1:
+				seq = append(seq, "fault put on", fmt.Sprintf("alloc s%d", s), "fault put off", fmt.Sprintf("lookup s%d", s))
+			case 2:
+				seq = append(seq, "fault put on", fmt.Sprintf("release s%d", s), "fault put off", fmt.Sprintf("lookup s%d", s))
+			case 3, 4:
+				seq = append(seq, fmt.Sprintf("alloc s%d", s))
+			case 5:
+				seq = append(seq, fmt.Sprintf("release s%d", s))
+			case 6:
+				seq = append(seq, "fault put on", fmt.Sprintf("sub s%d p1 -", s), "fault put off")
+			default:
+				seq = append(seq, fmt.Sprintf("audit %d", subs))
+			}
+		}
+		seq = append(seq, fmt.Sprintf("audit %d", subs))
 		emit(seq)
 	}
 }
@@ -110,11 +150,18 @@ func (comp) Gen(r *rand.Rand, tier string, emit func([]string)) {
 type countingStore struct {
 	*nexus.MemoryStore
 	subPuts, ispPuts atomic.Int64
+	// failSub: every write under /subscriber/ is refused
+	failSub atomic.Bool
 }
+
+var errInjected = errors.New("injected store failure")
 
 func (c *countingStore) Put(ctx context.Context, key string, value []byte) error {
 	switch {
 	case strings.HasPrefix(key, "/subscriber/"):
+		if c.failSub.Load() {
+			return errInjected
+		}
 		c.subPuts.Add(1)
 	case strings.HasPrefix(key, "/isp/"):
 		c.ispPuts.Add(1)
@@ -225,9 +272,40 @@ func (r *run) do(op string) string {
 			return "badop"
 		}
 		if err := r.c.SaveSubscriber(ctx, &nexus.Subscriber{ID: s, IPv4Pool: p, ISPID: i, State: "active"}); err != nil {
+			if strings.Contains(err.Error(), "injected") {
+				return "error"
+			}
 			return "error " + err.Error()
 		}
 		return "ok"
+	case f[0] == "fault" && len(f) == 3 && f[1] == "put" && (f[2] == "on" || f[2] == "off"):
+		r.st.failSub.Store(f[2] == "on")
+		return "ok"
+	case f[0] == "audit" && len(f) == 2:
+		n, err := strconv.Atoi(f[1])
+		if err != nil || n < 0 || n > 64 {
+			return "badop"
+		}
+		show := func(sub *nexus.Subscriber, ok bool) string {
+			switch {
+			case !ok || sub == nil:
+				return "x"
+			case sub.IPv4Addr == "":
+				return "-"
+			}
+			return flx.Hex4(net.ParseIP(sub.IPv4Addr))
+		}
+		var rows []string
+		for i := 1; i <= n; i++ {
+			id := fmt.Sprintf("s%d", i)
+			cached, ok := r.c.GetSubscriber(id)
+			stored, err := r.c.Subscribers.Get(ctx, id)
+			rows = append(rows, fmt.Sprintf("%s=%s|%s", id, show(cached, ok), show(stored, err == nil)))
+		}
+		if len(rows) == 0 {
+			return "-"
+		}
+		return strings.Join(rows, ",")
 	case f[0] == "alloc" && len(f) == 2:
 		s, ok := tagged(f[1], 's')
 		if !ok {
@@ -245,6 +323,8 @@ func (r *run) do(op string) string {
 				return "nopoolrec"
 			case strings.Contains(e, "no usable addresses"):
 				return "nohosts"
+			case strings.Contains(e, "injected"):
+				return "error"
 			}
 			return "error " + e
 		}
@@ -257,6 +337,9 @@ func (r *run) do(op string) string {
 		if err := r.c.ReleaseSubscriberIP(ctx, s); err != nil {
 			if strings.Contains(err.Error(), "not found") {
 				return "nosub"
+			}
+			if strings.Contains(err.Error(), "injected") {
+				return "error"
 			}
 			return "error " + err.Error()
 		}
